@@ -98,19 +98,30 @@ def recipes(depth=2, special=False, classes=True, sub=True, max_args=3, leaves=N
     return st.builds(lambda a, s: {"args": a, "sub": s, "env": False}, top, subs)
 
 
+def _value(draw, shape, has_default, dflt, special):
+    """a conforming input; for a dict-typed argument with a default sometimes the default with one entry changed or added (a value that
+    overlaps its default in part is what dump(skip_default=True) has to keep whole)"""
+    if has_default and shape[0] in ("dict", "dictint") and isinstance(dflt, dict) and dflt and draw(st.integers(0, 2)) == 0:
+        v = copy.deepcopy(dflt)
+        key = draw(st.sampled_from(sorted(v, key=repr) + (["zk"] if shape[0] == "dict" else [7])))
+        v[key] = draw(G.conforming(shape[1], special))
+        return v
+    return draw(G.conforming(shape, special))
+
+
 def values_for(recipe, special=False):
     """strategy: flat {dotted name: conforming input} for a subset of the arguments (+ chosen subcommand and its values)"""
     def build(draw):
         vals = {}
-        for name, shape, has_default, _d in recipe["args"]:
+        for name, shape, has_default, dflt in recipe["args"]:
             if draw(st.integers(0, 3)) > 0 or _needs_value(shape):
-                vals[name] = draw(G.conforming(shape, special))
+                vals[name] = _value(draw, shape, has_default, dflt, special)
         sub = None
         if recipe.get("sub"):
             sub = draw(st.sampled_from(sorted(recipe["sub"])))
-            for name, shape, has_default, _d in recipe["sub"][sub]:
+            for name, shape, has_default, dflt in recipe["sub"][sub]:
                 if draw(st.integers(0, 3)) > 0 or _needs_value(shape):
-                    vals[sub + "." + name] = draw(G.conforming(shape, special))
+                    vals[sub + "." + name] = _value(draw, shape, has_default, dflt, special)
         return {"values": vals, "subcommand": sub}
 
     return st.composite(lambda draw: build(draw))()
